@@ -127,7 +127,7 @@ theorem no_journal_off_leader (db : DB) (ops : List Op) (hl : db.leader = false)
 /-- **the follower-side deferral**: off-leader, a journalled hold that has reached its deadline less than 300 s ago is NOT ended —
 no notice, same depth, same `locked`; it is re-armed 30 s ahead -/
 theorem follower_expiry_deferred (db : DB) (key rid : Nat) (hk : db.hasKey key = true) (hm : (db.getKey key).hasRec rid)
-    (hl : db.leader = false) (ha : ((db.getKey key).getR rid).isAof = true) (he : ((db.getKey key).getR rid).expried = false)
+    (hs : ((db.getKey key).getR rid).eSched.isSome = true) (hl : db.leader = false) (ha : ((db.getKey key).getR rid).isAof = true) (he : ((db.getKey key).getR rid).expried = false)
     (ht : db.now - ((db.getKey key).getR rid).expT < 300) (hc : db.eCheck ≤ db.now + 30) :
     (fireExpire db key rid).2 = [] ∧
     (((fireExpire db key rid).1.getKey key).getR rid).expT = db.now + 30 ∧
@@ -140,7 +140,7 @@ theorem follower_expiry_deferred (db : DB) (key rid : Nat) (hk : db.hasKey key =
     ((fireExpire db key rid).1.getKey key).locks = (db.getKey key).locks := by
   have hd : deferExpiry db ((db.getKey key).getR rid) = true := by
     unfold deferExpiry WAIT_LEADER_MAX; simp [hl, ha]; omega
-  obtain ⟨o1, o2, o3, o4, o5, o6, o7, o8⟩ := fireExpire_deferred (db.openKey key) rid hm hl hd he
+  obtain ⟨o1, o2, o3, o4, o5, o6, o7, o8⟩ := fireExpire_deferred (db.openKey key) rid hm hs hl hd he
   have hg : ((db.openKey key).fireExpire rid).gone = false := by rw [o2]; simp [DB.openKey, hk]
   have hkey : ((db.openKey key).fireExpire rid).k.key = key := by rw [o3]; exact getKey_key _ _
   have hget : (fireExpire db key rid).1.getKey key = ((db.openKey key).fireExpire rid).k := by
@@ -161,12 +161,12 @@ theorem follower_expiry_deferred (db : DB) (key rid : Nat) (hk : db.hasKey key =
 /-- … and ended only after: a follower that does send the EXPRIED notice for a journalled hold does so at least 300 s past the
 deadline the record carries -/
 theorem follower_expiry_ended_only_after (db : DB) (key rid : Nat) (hk : db.hasKey key = true) (hm : (db.getKey key).hasRec rid)
-    (hl : db.leader = false) (ha : ((db.getKey key).getR rid).isAof = true) (he : ((db.getKey key).getR rid).expried = false)
+    (hs : ((db.getKey key).getR rid).eSched.isSome = true) (hl : db.leader = false) (ha : ((db.getKey key).getR rid).isAof = true) (he : ((db.getKey key).getR rid).expried = false)
     (hc : db.eCheck ≤ db.now + 30) (hr : (fireExpire db key rid).2 ≠ []) :
     300 ≤ db.now - ((db.getKey key).getR rid).expT := by
   apply Classical.byContradiction
   intro hn
-  exact hr (follower_expiry_deferred db key rid hk hm hl ha he (by omega) hc).1
+  exact hr (follower_expiry_deferred db key rid hk hm hs hl ha he (by omega) hc).1
 
 /-- the re-armed hold is deferred AGAIN at its next visit: the deadline the 300 s are measured against is the re-arm time, so a
 follower never ends a replicated hold on its own clock (the "up to 300 s" of the statement is not what the code does) -/
